@@ -238,15 +238,7 @@ MUTANTS = [
     M("interval test strict", [(F_BASE, "values_to_group = [df_feature <= value for value in feature_values if value != str_nan]", "values_to_group = [df_feature < value for value in feature_values if value != str_nan]")], "R-total-cover", "right-closed"),
     M("validation skipped when copy=False", [(F_BASE, "        x_copy = self.__prepare_data(X, y)\n\n        # transforming quantitative features", "        x_copy = self.__prepare_data(X, y) if self.copy else X\n\n        # transforming quantitative features")], "R-missing-columns"),
     M("message does not name the feature", [(F_BASE, "            f\"'{feature}' at transform step but not during fit. There might be new values \"\n            \"in your test/dev set. Consider taking a bigger test/dev set or dropping the \"\n            f\"column {feature}.\"", "            \"at transform step but not during fit. There might be new values \"\n            \"in your test/dev set. Consider taking a bigger test/dev set or dropping the \"\n            \"column.\"")], "R-names-feature"),
-    M("D27-reverted: inner BaseDiscretizer built with hard-coded sentinels", [("AutoCarver/discretizers/discretizers.py", "            str_nan=self.str_nan,
-            str_default=self.str_default,
-            n_jobs=self.n_jobs,
-        )
-        x_copy = base_discretizer.fit_transform(x_copy, y)", "            str_nan="__NAN__",
-            str_default="__OTHER__",
-            n_jobs=self.n_jobs,
-        )
-        x_copy = base_discretizer.fit_transform(x_copy, y)")], "R-forward-sentinels", "BaseDiscretizer", quick=True),
+    M("D27-reverted: inner BaseDiscretizer built with hard-coded sentinels", [("AutoCarver/discretizers/discretizers.py", "            str_nan=self.str_nan,\n            str_default=self.str_default,\n            n_jobs=self.n_jobs,\n        )\n        x_copy = base_discretizer.fit_transform(x_copy, y)", "            str_nan=\"__NAN__\",\n            str_default=\"__OTHER__\",\n            n_jobs=self.n_jobs,\n        )\n        x_copy = base_discretizer.fit_transform(x_copy, y)")], "R-forward-sentinels", "BaseDiscretizer", quick=True),
     M("str_default not forwarded to the inner CategoricalDiscretizer", [("AutoCarver/discretizers/discretizers.py", "                str_nan=self.str_nan,\n                str_default=self.str_default,\n                verbose=self.verbose,\n                copy=False,", "                str_nan=self.str_nan,\n                verbose=self.verbose,\n                copy=False,")], "R-forward-sentinels", "CategoricalDiscretizer"),
     M("numpy.isnan on the transformed column", [(F_BASE, "    nans = isna(df_feature)\n", "    nans = isnan(df_feature)\n"), (F_BASE, "from numpy import floating, integer, isfinite, nan, select", "from numpy import floating, integer, isfinite, isnan, nan, select")], "R-numeric-only-call", "transform_quantitative_feature"),
     M("assertion message joins raw values", [(F_BASE, "                f\"{str(list(unexpected))} of feature '{feature}' was not provided. \"", "                f\"{', '.join(unexpected)} of feature '{feature}' was not provided. \"")], "R-assert-only", "can raise"),
